@@ -76,3 +76,26 @@ uint64_t c17_widenshift_bad(const uint8_t *bytes, int n) {
   return value;
 }
 }  // namespace verif_control
+
+// ---- NESTBOUND control: the bound is on the pending-work stack, not on the nesting level ---------------
+#include <vector>
+namespace verif_control {
+struct nest_Node { bool nest_attach(nest_Node *child); };
+bool nest_read(unsigned *out);
+bool nest_bad(nest_Node *root) {
+  struct Item { nest_Node *parent; int level; };
+  std::vector<Item> stack;
+  stack.push_back({root, 0});
+  while (!stack.empty()) {
+    const Item it = stack.back();
+    stack.pop_back();
+    if (stack.size() > 1000) return false;      // a chain keeps the stack at size <= 1
+    nest_Node *child = new nest_Node();
+    if (!it.parent->nest_attach(child)) return false;
+    unsigned n = 0;
+    if (!nest_read(&n)) return false;
+    for (unsigned i = 0; i < n; ++i) stack.push_back({child, it.level + 1});
+  }
+  return true;
+}
+}  // namespace verif_control
